@@ -77,6 +77,45 @@ def _persistent_base(ctx: Ctx, mod: Mod, at: ast.AST, base: ast.AST, fn: ast.AST
     return None
 
 
+def _sink_declared_scalar(mod: Mod, sink: str) -> bool:
+    """`module-level object `x`` whose annotation (`x: Dict[int, Tuple[CodeType, Tuple[Rec, ...]]] = {}`), with module-level type
+    aliases resolved, mentions only scalar types, code objects and immutable containers of those"""
+    import re as _re
+    from ..taint import _ScalarAnn
+    m = _re.match(r"module-level object `(\w+)`", sink)
+    if not m:
+        return False
+    name = m.group(1)
+    ann = [n.annotation for n in mod.tree.body if isinstance(n, ast.AnnAssign) and isinstance(n.target, ast.Name) and n.target.id == name]
+    if len(ann) != 1:
+        return False
+    aliases = {n.targets[0].id: n.value for n in mod.tree.body if isinstance(n, ast.Assign) and len(n.targets) == 1 and isinstance(n.targets[0], ast.Name)
+               and isinstance(n.value, (ast.Subscript, ast.Name, ast.Attribute))}
+
+    class R(ast.NodeTransformer):
+        depth = 0
+
+        def visit_Name(self, x: ast.Name):
+            if x.id in aliases and self.depth < 5:
+                self.depth += 1
+                r = self.visit(copy.deepcopy(aliases[x.id]))
+                self.depth -= 1
+                return r
+            return x
+    import copy
+    a = R().visit(copy.deepcopy(ann[0]))
+    if isinstance(a, ast.Constant) and isinstance(a.value, str):
+        try:
+            a = R().visit(ast.parse(a.value, mode="eval").body)
+        except SyntaxError:
+            return False
+    if not (isinstance(a, ast.Subscript) and ast.unparse(a.value).split(".")[-1] in ("Dict", "dict", "List", "list", "Set", "set", "DefaultDict", "OrderedDict", "Deque", "WeakValueDictionary")):
+        return False
+    args = list(a.slice.elts) if isinstance(a.slice, ast.Tuple) else [a.slice]
+    sc = _ScalarAnn()
+    return bool(args) and all(sc._ok(x) for x in args)
+
+
 def esc1(ctx: Ctx) -> None:
     """ESC-1 no target-derived value reaches a persistent sink during an extraction"""
     n_sites = 0
@@ -139,7 +178,10 @@ def esc1(ctx: Ctx) -> None:
                 if sink is None:
                     continue
                 n_sites += 1
-                if val is not None and expr_tainted(val, t):
+                if val is not None and expr_tainted(val, t) and _sink_declared_scalar(mod, sink):
+                    ctx.R.ok("ESC-1", f"{mod.name}.{q}: {norm(n)[:70]}", f"{sink} is declared to hold only numbers / flags / strings / code objects (its annotation, aliases resolved): "
+                             "nothing of the observed program's state fits there")
+                elif val is not None and expr_tainted(val, t):
                     ctx.R.fail("ESC-1", mod, n, f"a value derived from the extraction target is stored into {sink}: stackscope keeps a reference to the target's frames/managers after the result is dropped",
                                construct=norm(n)[:160])
                 else:
